@@ -55,7 +55,7 @@ claim("C05",
       "Lean 4 proof (structural induction / iterator invariant; state machine = lexical specification) + differential correspondence + reference-render oracle")
 claim("C04",
       "Lean 4 theorems for the proved part: creation_denotes (GE/Thm/C04Tag.lean): over the tag-level model of generated code + ProcGenWrapper (GE/Model/TagSem.lean: text, "
-      "elements with plain attributes, <block>, wx:if/elif/else chains, wx:for with and without key, nested freely; expressions abstract), the elements and text nodes that creation "
+      "elements with plain attributes, <block>, <include>, <template is data> (static or computed name, named / shorthand fields), wx:if/elif/else chains, wx:for with and without key, nested freely; expressions abstract), the elements and text nodes that creation "
       "builds are, in document order, exactly the ones the template denotes (first truthy branch, body once per list entry with item / index pushed, block = its children); "
       "the model is executable over JSON values and compared with the real compiler + runtime on generated templates x data (corr:tagsem). Also: the wx:if/elif/else branch selector statement is read by JavaScript as c1?1:c2?2:…:0 for all conditions "
       "(if_selector_derives, on top of gen_derives) and dash_to_camel name normalisation facts; models tied by correspondence streams (selector statement "
